@@ -32,7 +32,9 @@ def run(ctx):
         s["id"] = i + 1
         s["mode"] = "model"
         s["rseed"] = ctx.seed
-    nrand = 1500 if ctx.thorough else 300
+    if ctx.replay_scn:
+        scns = [ctx.replay_scn]
+    nrand = 0 if ctx.replay_scn else (1500 if ctx.thorough else 300)
     for i in range(nrand):
         scns.append({"id": 10 ** 6 + i, "mode": "random", "n": rnd.randint(1, 32), "rseed": ctx.seed * 31 + i,
                      "order": [], "writable": [], "hints": [], "chg": {"op": "none", "s": 0, "pos": 0}})
